@@ -288,3 +288,14 @@ package eni
 //@   modifies IP.podID
 //@ func Set.Release
 //@   modifies IP.podID
+
+//@ for C12
+//@ # ---- CRD (v2) multi-IP results: the interface whose subnet, gateway and MAC are reported is one that holds an address
+//@ # ---- of the pod that is reported with it (a pod's addresses sit on one interface — C02 — so it holds all of them) ----
+//@ pure func has4(e *networkv1beta1.NetworkInterface, a netip.Addr, pod string) bool = e != nil && (exists k string :: k in e.IPv4 && e.IPv4[k].PodID == pod && e.IPv4[k].Status == "Valid" && parseAddr(e.IPv4[k].IP) == a)
+//@ pure func has6(e *networkv1beta1.NetworkInterface, a netip.Addr, pod string) bool = e != nil && (exists k string :: k in e.IPv6 && e.IPv6[k].PodID == pod && e.IPv6[k].Status == "Valid" && parseAddr(e.IPv6[k].IP) == a)
+//@ func CRDV2.multiIP$1$1
+//@   loop 1 invariant eniInfo == nil || has4(eniInfo, ipv4, cni.PodID) || has6(eniInfo, ipv6, cni.PodID)
+//@   loop 2 invariant eniInfo == nil || has4(eniInfo, ipv4, cni.PodID) || has6(eniInfo, ipv6, cni.PodID)
+//@   loop 3 invariant eniInfo == nil || has4(eniInfo, ipv4, cni.PodID) || has6(eniInfo, ipv6, cni.PodID)
+//@ guard call ip.DeriveGatewayIP in multiIP$1$1: has4(eniInfo, ipv4, cni.PodID) || has6(eniInfo, ipv6, cni.PodID)
